@@ -93,8 +93,8 @@ pub fn generate(case_seed: u64, idx: u64, tier: Tier) -> Case {
                 },
             })
             .collect(),
-        accept: if rng.chance(1, 4) { Some(*rng.pick(&[500u16, 900])) } else { None },
-        material: if rng.chance(1, 4) { Some(*rng.pick(&[100u16, 400])) } else { None },
+        accept: if rng.chance(1, 3) { Some(*rng.pick(&[500u16, 900, 500])) } else { None },
+        material: if rng.chance(1, 3) { Some(*rng.pick(&[100u16, 400, 500, 500])) } else { None },
     }
 }
 
